@@ -222,7 +222,20 @@ pub fn run(ctx: &mut Ctx) {
             for _ in 0..hist_len {
                 let p = random_params(&mut r);
                 if expected_events(&p) > 1e5 {
-                    ctx.count("skipped_resource_bound");
+                    // very dense ticks: too many events to compare one by one in every case, but the stream must
+                    // still have them; count them against the reference in a sample of these cases
+                    if expected_events(&p) <= 4e6 && p.sd.is_finite() && r.chance(1, 4) {
+                        let wp = format!("{p:?}");
+                        let ticks = SliderEventsIter::new(p.start, p.sd, p.vel, p.td, p.total, p.spans, &mut buf).filter(|e| matches!(e.kind, SliderEventType::Tick)).count();
+                        let want = events::model(p.start, p.sd, p.vel, p.td, p.total, p.spans).iter().filter(|e| e.k == 1).count();
+                        ctx.count("dense_tick_streams_counted");
+                        if ticks != want {
+                            ctx.violation("event_stream_mismatch", format!("{p:?}: {ticks} ticks in the stream, the reference stream has {want}"), 1 << 56 | i, wp.as_bytes());
+                            return;
+                        }
+                    } else {
+                        ctx.count("skipped_resource_bound");
+                    }
                     continue;
                 }
                 if r.chance(1, 3) {
@@ -382,7 +395,10 @@ fn random_params(r: &mut Rng) -> Params {
         2 => 3 + r.below(40) as i32,
         _ => 1 + r.below(4) as i32,
     };
-    let td = match r.below(8) {
+    let td = match r.below(9) {
+        // sub-pixel tick distance: hundreds of thousands of ticks per span
+        8 if r.chance(1, 12) => total * 1e-6 * (0.3 + 3.0 * r.f()),
+        8 => total / (3.0 + r.below(30) as f64),
         0 => 0.0,
         1 => f64::INFINITY,
         2 => total / (1.0 + r.below(8) as f64),
